@@ -926,6 +926,15 @@ def r6_truncation(program, rep):
             isinstance(b_.value, ast.Subscript) and
             isinstance(b_.value.slice, ast.Slice) and
             T.term(b_.value.value, b_.node) == LDF0]
+    if not cuts and any(
+            isinstance(n_, ast.Delete) and any(
+                isinstance(t_, ast.Subscript) for t_ in n_.targets)
+            for n_ in ast.walk(fn)):
+        # the path is trimmed in place (del path[:i + 1]) instead of being
+        # re-bound to its tail: that form is not read
+        raise AnalysisError("ner_net: the new path is trimmed in place by a "
+                            "del statement; which part is kept is not read "
+                            "off that form")
     ok = len(cuts) == 1 and ROUTE is not None
     if ok:
         d = cuts[0]
